@@ -333,9 +333,9 @@ func ruleC11Strict(e *Env) {
 			switch {
 			case r == "nil":
 				got = "decode"
-			case strings.Contains(r, "*date.ErrInvalidLength"):
+			case wrapsSentinel(lf.Out.Ret, "*date.ErrInvalidLength"):
 				got = "ErrInvalidLength"
-			case strings.Contains(r, "*date.ErrUnsupportedVersion"):
+			case wrapsSentinel(lf.Out.Ret, "*date.ErrUnsupportedVersion"):
 				got = "ErrUnsupportedVersion"
 			default:
 				got = "error:" + r
